@@ -32,7 +32,7 @@ RULE = (
     "table with at least one paired row and one unpaired row; distinct = (frame id, task, divisions, statuses present, #scenes, matched-FP present?)"
 )
 ASSUMPTIONS = ["ground-truth uuids are unique inside a frame", "yaw-only rotations"]
-DECIDING = ["analyzer.tables_judged", "analyzer.rows_checked", "analyzer.paired_rows", "C19.status.TP", "C19.status.FP", "C19.status.TN", "C19.status.FN", "C19.matched_fp_rows", "get_object_status.judged", "C19.error_arrays_checked", "C19.summaries_checked", "C19.selections_checked", "C19.map_frame_tables"]
+DECIDING = ["analyzer.tables_judged", "analyzer.rows_checked", "analyzer.paired_rows", "C19.status.TP", "C19.status.FP", "C19.status.TN", "C19.status.FN", "C19.matched_fp_rows", "get_object_status.judged", "C19.error_arrays_checked", "C19.summaries_checked", "C19.selections_checked", "C19.map_frame_tables", "C19.analyses_with_selections"]
 JOBS = {"quick": 4, "thorough": 14}
 
 
@@ -312,4 +312,25 @@ def run(ctx: Ctx) -> None:
                         else:
                             an.add(results)
                         pfr_mod.get_object_status(results)
+                # ---- analyses with selections must leave the tabulated frame results untouched
+                if an is not None and len(an.df) > 0:
+                    scenes_ = an.__dict__.get("_verif_scenes", [])
+                    before = [[(id(fr), len(fr.object_results), len(fr.frame_ground_truth.objects), len(fr.pass_fail_result.tp_object_results), len(fr.pass_fail_result.fp_object_results), len(fr.pass_fail_result.tn_objects), len(fr.pass_fail_result.fn_objects)) for fr in frames] for frames in scenes_]
+                    dists = [float(v) for v in an.df["distance"].dropna().tolist()]
+                    cut = (0.0, max(1.0, 0.6 * max(dists))) if dists else (0.0, 10.0)
+                    for kw in (dict(distance=cut), dict(scene=0), dict(area=0), dict(distance=(cut[1] * 0.3, cut[1] * 2))):
+                        try:
+                            an.analyze(**kw)
+                        except Exception as e:
+                            ctx.count("C19.analyze_exceptions")
+                            ctx.notes.setdefault("analyze_exception_samples", [])
+                            if len(ctx.notes["analyze_exception_samples"]) < 3:
+                                ctx.notes["analyze_exception_samples"].append(f"{kw}: {type(e).__name__}: {str(e)[:150]}")
+                    after = [[(id(fr), len(fr.object_results), len(fr.frame_ground_truth.objects), len(fr.pass_fail_result.tp_object_results), len(fr.pass_fail_result.fp_object_results), len(fr.pass_fail_result.tn_objects), len(fr.pass_fail_result.fn_objects)) for fr in frames] for frames in scenes_]
+                    ctx.count("C19.analyses_with_selections")
+                    ctx.check(before == after, "C19/analysis_modifies_the_tabulated_frame_results", dict(before=before[0][:3], after=after[0][:3]), "analyzer")
+                    judge_table(ctx, an, scenes_)  # the table must still be the tabulation of the frame results
+                    for frames in scenes_:
+                        if len({fr.frame_name for fr in frames}) == len(frames):
+                            pfr_mod.get_object_status(frames)
         ctx.notes["taps"] = taps.installed
